@@ -65,7 +65,7 @@ def main():
         r = tlc_or_die("TraceInteractive", cfg="TraceInteractive_FALSE.cfg", env={"TRACE_FILE": p})
         expect("TraceInteractive rejects a session with one event removed", not any(l.startswith("ACC 1") for l in r.lines))
         # (b) model bug switches
-        for v in ("bug1", "bug2", "bug3", "bug4", "bug5", "bug6"):
+        for v in ("bug1", "bug2", "bug3", "bug4", "bug5", "bug6", "bug7", "bug8"):
             r = run_tlc("MC_System", cfg="MC_System_%s.cfg" % v, workers=4)
             expect("MC_System %s: an invariant is violated" % v, (not r.ok) and "violated" in r.raw)
         r = run_tlc("MC_System", cfg="MC_System_ok.cfg", workers=4)
